@@ -6,11 +6,11 @@ import ast
 
 import re
 
-from ..core import (AnalysisError, assigned_targets, body_nodes, call_name, dotted, is_self_attr,
+from ..core import (AnalysisError, local_defs, assigned_targets, body_nodes, call_name, dotted, is_self_attr,
                     key_text, names_in, params, parent, stmts_of, unparse)
 from ..linform import NotPoly, Poly, eval_poly
 from ..normal import _dc, inline_temps
-from ..pattern import find, guards_of, pmatch
+from ..pattern import find, guards_at, guards_of, pmatch
 
 KRY = 'tenpy/linalg/krylov_based.py'
 SPARSE = 'tenpy/linalg/sparse.py'
@@ -425,13 +425,24 @@ def check_recurrence(prog, rep):
                           lr[0].lineno)
         check_pairing(m, rep, r)
     # ground state = lowest eigenvector of the tridiagonal matrix
-    f = m.func('LanczosGroundState._calc_result_krylov')
+    f = inline_temps(m.func('LanczosGroundState._calc_result_krylov'))
     rep.instance('KRYLOV-ritz', {})
-    src = unparse(f)
-    if 'np.linalg.eigh(h[:k + 1, :k + 1])' not in src or 'v_kr[:, 0]' not in src:
+    vec_ok = val_ok = False
+    k = params(f)[1]
+    for st in ast.walk(f):
+        if not isinstance(st, ast.Assign):
+            continue
+        t = unparse(st.targets[0])
+        if t == 'self._result_krylov' and pmatch(
+                'np.linalg.eigh($$h[:%s + 1, :%s + 1])[1][:, 0]' % (k, k), st.value):
+            vec_ok = True
+        if pmatch('self.Es[%s, :%s + 1]' % (k, k), st.targets[0]) and pmatch(
+                'np.linalg.eigh($$h[:%s + 1, :%s + 1])[0]' % (k, k), st.value):
+            val_ok = True
+    if not (vec_ok and val_ok):
         rep.violation('KRYLOV-ritz', m, 'LanczosGroundState._calc_result_krylov', 'ritz-vector',
-                      'the Ritz vector of the ground state is column 0 of eigh(h[:k+1,:k+1])',
-                      f.lineno)
+                      'the Ritz vector of the ground state is column 0 of eigh(h[:k+1,:k+1]) and '
+                      'the Ritz values its eigenvalues', f.lineno)
     b = m.func('LanczosGroundState._build_krylov')
     nb = inline_temps(b)
     lb = [s for s in nb.body if isinstance(s, ast.For)]
@@ -517,30 +528,75 @@ def check_wrappers(prog, rep):
                 rep.violation('WRAP-adjoint', m, q, 'adjoint:' + p[:30],
                               'adjoint() of %s: %s' % (ci.name, p), f.lineno)
     # OrthogonalNpcLinearOperator.matvec: project before and after, on a copy
-    f = m.func('OrthogonalNpcLinearOperator.matvec')
+    f = inline_temps(m.func('OrthogonalNpcLinearOperator.matvec'))
     rep.instance('WRAP-orthogonal', {})
-    src = unparse(f)
-    loops = [s for s in f.body if isinstance(s, ast.For)]
-    first = f.body[0]
-    ok = len(loops) == 2 and isinstance(first, ast.Assign) and unparse(first.value) == 'vec.copy()' \
-        and all("-npc.inner(o, vec, axes='range', do_conj=True)" in unparse(l) for l in loops) and \
-        any(isinstance(s, ast.Assign) and unparse(s.value) == 'self.orig_operator.matvec(vec)'
-            for s in f.body)
-    if ok:
-        ok = all('self.ortho_vecs' in unparse(l.iter) for l in loops)
-    if ok:
-        i_mv = [i for i, s in enumerate(f.body) if isinstance(s, ast.Assign) and
-                unparse(s.value) == 'self.orig_operator.matvec(vec)'][0]
-        ok = f.body.index(loops[0]) < i_mv < f.body.index(loops[1])
-    if not ok:
+    pv = params(f)[1]
+    why = None
+    cp = [st for st in f.body if pmatch('$v = %s.copy()' % pv, st)]
+    if not cp:
+        why = 'the vector must be copied first (the projections work in place)'
+    else:
+        v = pmatch('$v = %s.copy()' % pv, cp[0])['$v']
+        projs = []
+        for lp in [s2 for s2 in f.body if isinstance(s2, ast.For)]:
+            it = unparse(lp.iter)
+            if 'self.ortho_vecs' not in it or not isinstance(lp.target, ast.Name):
+                continue
+            o = lp.target.id
+            good = False
+            for c in body_nodes(lp):
+                if isinstance(c, ast.Call) and (dotted(c.func) or '').endswith('iadd_prefactor_other'):
+                    b = _bind(c, ('w', 'alpha', 'v'))
+                    if unparse(b.get('w', c)) == v and unparse(b.get('v', c)) == o and (
+                            pmatch("-npc.inner(%s, %s, axes='range', do_conj=True)" % (o, v),
+                                   b.get('alpha')) or
+                            pmatch("-npc.inner(%s, %s, 'range', do_conj=True)" % (o, v),
+                                   b.get('alpha'))):
+                        good = True
+            if good:
+                projs.append(lp)
+        mv = [st for st in f.body if pmatch('%s = self.orig_operator.matvec(%s)' % (v, v), st)]
+        rets = [st for st in f.body if isinstance(st, ast.Return)]
+        if len(projs) != 2 or len(mv) != 1:
+            why = 'found %d projections and %d applications of the operator' % (len(projs), len(mv))
+        elif not (cp[0].lineno < projs[0].lineno < mv[0].lineno < projs[1].lineno):
+            why = 'order must be copy, project, apply, project'
+        elif not rets or unparse(rets[-1].value) != v:
+            why = 'the projected vector must be returned'
+    if why:
         rep.violation('WRAP-orthogonal', m, 'OrthogonalNpcLinearOperator.matvec', 'projection',
-                      'P H P: the vector must be copied, projected, mapped and projected again',
-                      f.lineno)
-    f = m.func('ShiftNpcLinearOperator.matvec')
+                      'P H P: the vector must be copied, projected, mapped and projected again: '
+                      + why, f.lineno)
+    f = inline_temps(m.func('ShiftNpcLinearOperator.matvec'), keep=('temp', 'result'))
     rep.instance('WRAP-shift', {})
-    if 'krylov_based.iadd_prefactor_other(temp, self.shift, vec)' not in unparse(f):
+    pv = params(f)[1]
+    ok = False
+    for c in body_nodes(f):
+        if isinstance(c, ast.Call) and (dotted(c.func) or '').endswith('iadd_prefactor_other'):
+            b = _bind(c, ('w', 'alpha', 'v'))
+            w = b.get('w')
+            if w is not None and unparse(b.get('alpha', c)) == 'self.shift' and \
+                    unparse(b.get('v', c)) == pv:
+                wdef = local_defs(f).get(unparse(w), [])
+                if any(pmatch('self.orig_operator.matvec(%s)' % pv, d) for d in wdef) and any(
+                        isinstance(st, ast.Return) and unparse(st.value) == unparse(w)
+                        for st in f.body):
+                    ok = True
+    for st in f.body:       # or the out-of-place form
+        if isinstance(st, ast.Return) and (
+                pmatch('self.orig_operator.matvec(%s) + self.shift * %s' % (pv, pv), st.value)):
+            ok = True
+    if not ok:
         rep.violation('WRAP-shift', m, 'ShiftNpcLinearOperator.matvec', 'shift',
                       '(H + shift) v = H v + shift * v', f.lineno)
+
+
+def _bind(call, names):
+    out = dict(zip(names, call.args))
+    for k in call.keywords:
+        if k.arg is not None:
+            out[k.arg] = k.value
+    return out
 
 
 def _test_atoms(test):
@@ -552,25 +608,41 @@ def _test_atoms(test):
 
 def check_eshift(prog, rep):
     m = prog.module(KRY)
-    f = m.func('KrylovBased.__init__')
+    f = inline_temps(m.func('KrylovBased.__init__'))
     rep.instance('KRYLOV-eshift', {'function': 'KrylovBased.__init__'})
-    src = unparse(f)
-    ok = False
-    for st in ast.walk(f):
-        if isinstance(st, ast.If) and unparse(st.test) == 'self.E_shift is not None':
-            s2 = unparse(st)
-            if 'isinstance(self.H, OrthogonalNpcLinearOperator)' in s2 and \
-                    'self.H.orig_operator = ShiftNpcLinearOperator(self.H.orig_operator, ' \
-                    'self.E_shift)' in s2 and \
-                    'self.H = ShiftNpcLinearOperator(self.H, self.E_shift)' in s2:
-                ok = True
-    if not ok:
+    inside = outside = False
+    for c in body_nodes(f):
+        e = pmatch('ShiftNpcLinearOperator($$op, $$sh)', c)
+        if not e or unparse(e['$$sh']) not in ('self.E_shift', 'E_shift'):
+            continue
+        st = c
+        while not isinstance(st, ast.stmt):
+            st = parent(st)
+        g = {(t, pol) for t, pol, _ in guards_at(f, c)}
+        shifted = any(t.endswith('E_shift is None') and not pol for t, pol in g)
+        is_orth = {pol for t, pol in g if t.startswith('isinstance(') and
+                   'OrthogonalNpcLinearOperator' in t}
+        op = unparse(e['$$op'])
+        if op.endswith('.orig_operator') and shifted and is_orth == {True}:
+            # the shifted inner operator must end up INSIDE an orthogonal projection
+            tgt = unparse(st.targets[0]) if isinstance(st, ast.Assign) else ''
+            wrapped = any(isinstance(x, ast.Call) and call_name(x) == 'OrthogonalNpcLinearOperator'
+                          and c in ast.walk(x) for x in ast.walk(st))
+            named = isinstance(st, ast.Assign) and isinstance(st.targets[0], ast.Name) and any(
+                isinstance(x, ast.Call) and call_name(x) == 'OrthogonalNpcLinearOperator' and
+                x.args and unparse(x.args[0]) == st.targets[0].id for x in body_nodes(f))
+            if tgt.endswith('.orig_operator') or wrapped or named:
+                inside = True
+        elif op in ('self.H', 'H') and shifted and is_orth == {False} and \
+                isinstance(st, ast.Assign) and unparse(st.targets[0]) == 'self.H':
+            outside = True
+    if not (inside and outside):
         rep.violation('KRYLOV-eshift', m, 'KrylovBased.__init__', 'shift-inside-projection',
                       'the energy shift must be added to H, and INSIDE an orthogonal projection '
                       '(otherwise the projected-out vectors are shifted as well)', f.lineno)
     from ..cfg import CFG
     for qn in ('LanczosGroundState.run', 'Arnoldi.run'):
-        f = m.func(qn)
+        f = inline_temps(m.func(qn), keep=('E0', ))
         rep.instance('KRYLOV-eshift', {'function': qn})
         removal = [st for st in ast.walk(f) if isinstance(st, ast.If) and any(
             t == 'self.E_shift is None' and not pol or t == 'self.E_shift' and pol
